@@ -131,9 +131,13 @@ def run_cases(pid, cases, workdir):
 def shrink(pid, case, workdir, fails):
     """Greedy op deletion keeping `fails(case) -> bool` true; batches model runs."""
     cur = case
-    for _round in range(12):
+    for _round in range(8):
         prog = cur["prog"]
-        cands = [dict(cur, prog=prog[:i] + prog[i + 1:]) for i in range(len(prog)) if len(prog) > 1]
+        idx = list(range(len(prog)))
+        if len(idx) > 48:                      # bound the cost of a round on long programs
+            step = len(idx) / 48.0
+            idx = sorted({int(k * step) for k in range(48)})
+        cands = [dict(cur, prog=prog[:i] + prog[i + 1:]) for i in idx if len(prog) > 1]
         if not cands:
             break
         try:
